@@ -275,9 +275,23 @@ func ruleC04Verify(rule string) ruleFn {
 				return false
 			}
 			s := R.CondAtom(iff.Cond).String()
-			return strings.HasPrefix(s, "reflect.DeepEqual(") && strings.Contains(s, rwChain+"#0[") && strings.Contains(s, woChain+"#0[")
+			// both chains compared from element 1 (the head is skipped) up to and including the position
+			// at which the checkpoint was found in the RW chain
+			bounds := "[+1:+phi{* | phi{* | 0}} +1]"
+			return s == "reflect.DeepEqual("+rwChain+"#0"+bounds+","+woChain+"#0"+bounds+")"
 		}
-		c.Guard(rule, fn, promo, "promote to RW", nil, Need{Desc: "reflect.DeepEqual(rwChain[..], chain[..]) is true", Edge: deq})
+		c.Guard(rule, fn, promo, "promote to RW", nil, Need{Desc: "reflect.DeepEqual(rwChain[1:indx+1], chain[1:indx+1]) is true, indx = position of the WO checkpoint in the RW chain", Edge: deq})
+		foundLoop := false
+		for _, ea := range allAtoms(fn, R) {
+			if ea.Atom.String() == eqAtom(rwChain+"#0[*]", ckpt) {
+				foundLoop = true
+			}
+		}
+		if foundLoop {
+			c.OK(rule, FnName(fn)+" | indx is the checkpoint's position in the RW chain", "", "range over rwChain compares each element with the WO checkpoint", false)
+		} else {
+			c.Bad(rule, FnName(fn)+" | indx is the checkpoint's position in the RW chain", "", "the search for the WO checkpoint in the RW chain changed", nil)
+		}
 		// order: SetReplicaMode before SetRevisionCounter (replica accepts the counter only in RW)
 		src := CallsTo(fn, fRepl+"SetRevisionCounter")
 		c.Guard(rule, fn, src, "SetRevisionCounter", nil, atom("replica switched to RW first", "+"+fRepl+`SetReplicaMode($0.backend,$1,"RW") -nil ==0`))
@@ -1089,6 +1103,7 @@ func ruleC13Ctl(c *Ctx) {
 		}
 		c.Guard(rule, fn, rets, "return", nil, called("(*sync.WaitGroup).Wait"))
 		c.Guard(rule, fn, nilErrorReturns(fn), "return nil", nil, atom("no per-replica failure recorded", "+len(var(complit).Errors) ==0"))
+		fanoutErrorType(c, rule, fn)
 		var gos []ssa.Instruction
 		eachInstr(fn, func(in ssa.Instruction) {
 			if _, ok := in.(*ssa.Go); ok {
@@ -1245,6 +1260,29 @@ func ruleC13Ctl(c *Ctx) {
 	c.Floor(rule, 20)
 }
 
+// fanoutErrorType: a fan-out's failure must be returned as the *BackendError that names the failed
+// replicas (handleErrorNoLock only understands that type); wrapping it hides them.
+func fanoutErrorType(c *Ctx, rule string, fn *ssa.Function) {
+	for _, r := range Returns(fn) {
+		ei := errResultIndex(fn)
+		if ei < 0 {
+			continue
+		}
+		v := r.Results[ei]
+		if isNilConst(strip(v)) {
+			continue
+		}
+		key := FnName(fn) + " | failure returned as *BackendError"
+		mi, ok := v.(*ssa.MakeInterface)
+		if ok && strings.HasSuffix(mi.X.Type().String(), "controller.BackendError") {
+			c.OK(rule, key, c.P.InstrPos(r), "per-replica failures reach handleErrorNoLock", false)
+		} else {
+			// Snapshot / Resize have no refusal of their own: every failure they report is a per-replica one
+			c.Bad(rule, key, c.P.InstrPos(r), "the fan-out reports a failure as "+NewRenderer(fn).V(v)+" instead of the *BackendError naming the failed replicas: handleErrorNoLock cannot mark them ERR and a replica that missed the operation stays RW", nil)
+		}
+	}
+}
+
 func (c *Ctx) witnessOr(ws []Witness) []string {
 	if len(ws) == 0 {
 		return nil
@@ -1299,6 +1337,7 @@ func ruleC16Ctl(c *Ctx) {
 		})
 		c.Guard(rule, f, gos, "go resize", nil, atom("backend not ERR", `+"ERR" -$0.backends[*].mode !=0`))
 		c.Guard(rule, f, nilErrorReturns(f), "return nil", nil, called("(*sync.WaitGroup).Wait"), atom("no replica failed", "+len(var(complit).Errors) ==0"))
+		fanoutErrorType(c, rule, f)
 	}
 	c.Floor(rule, 12)
 }
